@@ -175,6 +175,29 @@ func IteU64(c bool, a, b uint64) uint64 {
 	return b
 }
 
+// HalfToFloat64: independent IEEE binary16 decoder (the engine uses the solver's own binary16 sort).
+func HalfToFloat64(h uint16) float64 {
+	sign := (h >> 15) & 1
+	exp := int((h >> 10) & 0x1f)
+	man := float64(h & 0x3ff)
+	var f float64
+	switch {
+	case exp == 0:
+		f = math.Ldexp(man, -24)
+	case exp == 31:
+		if man != 0 {
+			return math.NaN()
+		}
+		f = math.Inf(1)
+	default:
+		f = math.Ldexp(man+1024, exp-25)
+	}
+	if sign == 1 {
+		f = -f
+	}
+	return f
+}
+
 // RunReplay is called from the generated TestZZReplay.
 func RunReplay(t *testing.T, funcs map[string]func()) {
 	path := os.Getenv("ZZVERIF_REPLAY")
